@@ -50,7 +50,9 @@ def env_for(b, variant=""):
         e["ASAN_OPTIONS"] = "detect_leaks=0:halt_on_error=1:abort_on_error=1"
     if variant == "tsan":
         e["LD_PRELOAD"] = subprocess.check_output(["gcc", "-print-file-name=libtsan.so"], text=True).strip()
-        e["TSAN_OPTIONS"] = "halt_on_error=0:report_signal_unsafe=0"
+        for f in glob.glob(os.path.join(b, "tsan-log*")):
+            os.remove(f)
+        e["TSAN_OPTIONS"] = "halt_on_error=0:report_signal_unsafe=0:log_path=" + os.path.join(b, "tsan-log")
     return e
 
 
